@@ -819,10 +819,12 @@ func harnessB(cfgJSON json.RawMessage) sched.Harness {
 						}
 						st := cgs.Guard(l).State()
 						conflict := st == litefs.RWMutexStateExclusive || (st == litefs.RWMutexStateShared && l != litefs.LockTypeDMS && (d.Mode() != litefs.DBModeWAL || (l != litefs.LockTypeShared && l != litefs.LockTypePending)))
-						if d.Mode() == litefs.DBModeWAL && (l == litefs.LockTypePending || l == litefs.LockTypeReserved) {
+						if d.Mode() == litefs.DBModeWAL && cfg.Inner == "import-leave-wal" && (l == litefs.LockTypePending || l == litefs.LockTypeReserved) {
 							// a connection that is about to leave WAL mode queues for EXCLUSIVE on the database file with
 							// RESERVED and PENDING; a WAL-mode writer - SQLite's or LiteFS's - conflicts with neither (it is
-							// the writer's SHARED that keeps that connection waiting)
+							// the writer's SHARED that keeps that connection waiting). Only the configuration whose connection does
+							// leave WAL mode gets this allowance: anywhere else a RESERVED holder follows the rollback protocol, and
+							// a LiteFS that writes next to it believes in a WAL mode the database is not in.
 							conflict = false
 						}
 						if conflict {
